@@ -173,7 +173,15 @@ fn build_script(rng: &mut Rng, plan: &FilePlan, targeted: bool) -> Script {
             2 => { let j = s + 1 + rng.below(e - s); dels_before[j].push(format!("gone {}", rng.below(100))); if rng.chance(1, 2) { dels_before[j].push("gone too".into()); } reserve(j, j, &mut reserved); classes.push(json!({"block": b.name, "class": "inside-del", "content": true, "listed": true})); }
             3 => {
                 // attribute edit inside the start tag: selected, content not modified (if nothing else touches it)
-                let old = plan.lines[s].replace(&format!("name=\"{}\"", b.name), &format!("name=\"{}X\"", b.name));
+                // (variants: a value shortened; the last attribute / a blank removed right before `>`, so that only the
+                // closing `>` is marked; a character inserted right before `>`)
+                let l = &plan.lines[s];
+                let old = match rng.below(4) {
+                    1 if l.ends_with('>') => format!("{} gone=\"1\">", &l[..l.len() - 1]),
+                    2 if l.ends_with('>') => format!("{} >", &l[..l.len() - 1]),
+                    3 if l.ends_with("\">") => format!("{}>", &l[..l.len() - 2]),
+                    _ => l.replace(&format!("name=\"{}\"", b.name), &format!("name=\"{}X\"", b.name)),
+                };
                 ops[s] = LineOp::Edit(old); reserve(s, s, &mut reserved);
                 classes.push(json!({"block": b.name, "class": "tag-attr-edit", "content": false, "listed": true}));
             }
